@@ -46,6 +46,22 @@ def has_completion(spec):
     return walk(spec['root'])
 
 
+def cut_at_aborted_own_entry(norm, ix):
+    """An exception thrown by a submachine's OWN entry behaviour (the record before the THROW is the entry of a
+    submachine state) leaves that submachine's inner ids unspecified: back / back11 have already set them for the new
+    activation, backmp11 sets them after the entry behaviour.  No statement covers that inner configuration, and
+    everything dispatched into that submachine afterwards depends on it: the comparison ends at such a throw."""
+    sub_sites = set()
+    for m in ix.order:
+        for sn, st in m['states'].items():
+            if st['kind'] == 'sub':
+                sub_sites.add('%s.%s' % (m['name'], sn))
+    for k in range(1, len(norm)):
+        if norm[k][0] == 'THROW' and norm[k - 1][0] == 'EN' and norm[k - 1][1] in sub_sites:
+            return norm[:k]
+    return norm
+
+
 def completion_source(ix, rec):
     """(machine, region, state) whose completion step the normalised record belongs to, or None"""
     if not isinstance(rec, tuple) or len(rec) < 4 or rec[3] != 'none':
@@ -85,7 +101,7 @@ def run_c13(tier, seed):
                       'machine-level internal table (it does not compile them)',
                       'normalisation (vf/diff.py): false completion-guard evaluations dropped, return code -> (handled, zero), '
                       'pending counts summed over message and deferred queue / pool, any- and direct-entry wrappers stripped where the statement leaves them open',
-                      'top-level enqueue_event / single-step draining are not used (a direct process_event overtakes enqueued events in back but not in the backmp11 pool: API semantics outside the statement); nested submissions use process_event; failpoints not on machines with completion rows and not combined with nested submissions; a nested submission made inside the entry cascade through an entry pseudo state goes to the root, not to the submachine being entered (the order of the pseudo state continuation relative to events stored by its own cascade is not part of any statement and differs between the families)']
+                      'top-level enqueue_event / single-step draining are not used (a direct process_event overtakes enqueued events in back but not in the backmp11 pool: API semantics outside the statement); nested submissions use process_event; failpoints not on machines with completion rows and not combined with nested submissions; a comparison ends where a submachine's own entry behaviour throws (the inner ids of that submachine are then unspecified: back sets them before, backmp11 after that behaviour); a nested submission made inside the entry cascade through an entry pseudo state goes to the root, not to the submachine being entered (the order of the pseudo state continuation relative to events stored by its own cascade is not part of any statement and differs between the families)']
     known = engine.load_known()
     n = 50 if tier == 'quick' else 500
     hs = {m: engine.Harness(m, cfgs) for m, cfgs in C13_SETS}
@@ -134,7 +150,7 @@ def run_c13(tier, seed):
                         violations.append((rp, m, cfg, 'crash:' + r.status.split(':')[0], 'normal end of script', r.status))
                         bad = True
                         continue
-                    norm[cfg] = diff.normalize(r.recs, h.ixs[cfg], names=True)
+                    norm[cfg] = cut_at_aborted_own_entry(diff.normalize(r.recs, h.ixs[cfg], names=True), h.ixs[cfg])
                 ev.evaluations += len(h.cfgs)
                 if bad or ref not in norm:
                     continue
@@ -187,7 +203,7 @@ def replay_c13(path):
             print('cfg %s: %s' % (cfg, r.status))
             print('VIOLATION property=C13 replay=%s' % path)
             return 1
-        norm[cfg] = diff.normalize(r.recs, h.ixs[cfg], names=True)
+        norm[cfg] = cut_at_aborted_own_entry(diff.normalize(r.recs, h.ixs[cfg], names=True), h.ixs[cfg])
     if len(h.cfgs) < 2:
         print('ACCEPTED')
         return 0
